@@ -367,11 +367,8 @@ def run(ctx):
         fa, fb = a[key], b[key]
         programs += 1
         _mark_orig(fa.node)
-        drops = []
-        if key in (("parent", "setter"), ("__check_children", "static")):
-            drops = typecheck_statements(fa.node)
-            if len(drops) > 1:
-                drops = drops[:1]
+        drops = typecheck_statements(fa.node)
+        if drops:
             for d in drops:
                 table_hits += 1
                 ctx.inst("M2-table-typecheck", fa, d.test, "NodeMixin-only node-type check naming both mixins: dead for tree nodes")
